@@ -2,7 +2,10 @@
 // Implementation side of the correspondence (the real plz.FindAllBuildFiles and, through the verif hook,
 // the real findOriginalTask, run on generated directory trees materialised on disk) and the property
 // oracle (a declarative, component-wise reference computed from the generated tree, independent of the
-// Coq model and of the walk order).
+// Coq model and of the walk order).  Further streams: whole command lines of labels through the real
+// findOriginalTaskSet (oracle: the labels added are the union of what each label stands for), and the real
+// query.containsPackage - the search behind the completion of `//dir/` - on every directory of generated trees
+// (oracle: never false when `//dir/...` lists a package; equal to a depth-first, queue-free reference).
 package main
 
 import (
@@ -20,6 +23,7 @@ import (
 
 	"github.com/thought-machine/please/src/core"
 	"github.com/thought-machine/please/src/plz"
+	"github.com/thought-machine/please/src/query"
 )
 
 // ---------------------------------------------------------------------------------------------
@@ -38,6 +42,11 @@ type input struct {
 	Root           string   `json:"root"`   // clean relative path of a directory of the tree, or "" / "."
 	Prefix         string   `json:"prefix"` // FindAllBuildFiles' third argument ("" for `...` expansion)
 	Tree           *node    `json:"tree"`   // the repository root directory
+	// Kind "" = one `//root/...` label (FindAllBuildFiles + findOriginalTask); "set" = a whole command line of labels
+	// (findOriginalTaskSet); "contains" = query.containsPackage(Dir), the search behind the completion of `//dir/`
+	Kind    string      `json:"kind,omitempty"`
+	Cmdline [][2]string `json:"cmdline,omitempty"` // "set": (package, name) of every label, name "..." = all subpackages
+	Dir     string      `json:"dir,omitempty"`     // "contains": clean relative path of a directory of the tree, or "."
 }
 
 func d(name string, kids ...*node) *node { return &node{Name: name, Kind: "d", Kids: kids} }
@@ -477,6 +486,468 @@ func oracle(c *lib.Ctx, in *input, obs observed, js any) {
 }
 
 // ---------------------------------------------------------------------------------------------
+// several labels on one command line (findOriginalTaskSet)
+
+func inRepo(in *input, body func()) {
+	serial++
+	repo := filepath.Join(scratch, fmt.Sprintf("r%d", serial))
+	must(os.Mkdir(repo, 0o755))
+	materialise(repo, in.Tree, linkTarget)
+	wd, err := os.Getwd()
+	must(err)
+	must(os.Chdir(repo))
+	defer func() {
+		must(os.Chdir(wd))
+		must(os.RemoveAll(repo))
+	}()
+	body()
+}
+
+// runSet feeds the whole command line to the real findOriginalTaskSet and returns the (package, name) pairs of the
+// parse tasks it queued - one per AddOriginalTarget call, duplicates kept - sorted.
+func runSet(in *input) [][2]string {
+	out := [][2]string{}
+	inRepo(in, func() {
+		if state == nil {
+			state = core.NewBuildState(config(in))
+		}
+		state.Config = config(in)
+		labels := make([]core.BuildLabel, len(in.Cmdline))
+		for i, l := range in.Cmdline {
+			labels[i] = core.BuildLabel{PackageName: l[0], Name: l[1]}
+		}
+		before := state.NumActive()
+		plz.VerifC22FindOriginalTaskSet(state, labels)
+		n := state.NumActive() - before
+		parses, _ := state.TaskQueues()
+		for i := 0; i < n; i++ {
+			t := <-parses
+			if t.Label.Subrepo != "" {
+				out = append(out, [2]string{"!" + t.Label.String(), ""})
+			} else {
+				out = append(out, [2]string{t.Label.PackageName, t.Label.Name})
+			}
+		}
+	})
+	sort.Slice(out, func(i, j int) bool {
+		if out[i][0] != out[j][0] {
+			return out[i][0] < out[j][0]
+		}
+		return out[i][1] < out[j][1]
+	})
+	return out
+}
+
+func rootOf(pkg string) string {
+	if pkg == "" {
+		return "."
+	}
+	return pkg
+}
+
+// what one label of the command line stands for, from the declarative reference
+// (label -> how often it is added: once per BUILD file of the package, a package may have several)
+func labelStandsFor(in *input, l [2]string) map[[2]string]int {
+	out := map[[2]string]int{}
+	if l[1] != "..." {
+		out[l] = 1
+		return out
+	}
+	one := *in
+	one.Root = rootOf(l[0])
+	for p := range reference(&one) {
+		for _, k := range in.Tree.at(comps(p)).Kids {
+			if k.Kind != "d" && contains(in.BuildFileNames, k.Name) {
+				out[[2]string{p, "all"}]++
+			}
+		}
+	}
+	return out
+}
+
+func oracleSet(c *lib.Ctx, in *input, got [][2]string, js any) {
+	c.Oracle()
+	want := map[[2]string]int{}  // label -> number of times the command-line labels stand for it (once per label and BUILD file)
+	first := map[[2]string]int{} // label -> index of the first command-line label that stands for it
+	for i, l := range in.Cmdline {
+		for x, k := range labelStandsFor(in, l) {
+			if want[x] == 0 {
+				first[x] = i
+			}
+			want[x] += k
+		}
+	}
+	have := map[[2]string]int{}
+	for _, x := range got {
+		have[x]++
+	}
+	keys := func(m map[[2]string]int) [][2]string {
+		ks := [][2]string{}
+		for k := range m {
+			ks = append(ks, k)
+		}
+		sort.Slice(ks, func(i, j int) bool { return ks[i][0]+"\x00"+ks[i][1] < ks[j][0]+"\x00"+ks[j][1] })
+		return ks
+	}
+	for _, x := range keys(want) {
+		switch {
+		case have[x] == 0 && first[x] > 0:
+			by := in.Cmdline[first[x]]
+			c.Fail("package-of-later-label-on-command-line-not-listed", fmt.Sprintf("command line %q (blacklist %q): //%s:%s, which label #%d //%s:%s stands for, is not added", in.Cmdline, in.Blacklist, x[0], x[1], first[x]+1, by[0], by[1]), js)
+		case have[x] == 0:
+			c.Fail("package-of-first-label-on-command-line-not-listed", fmt.Sprintf("command line %q (blacklist %q): //%s:%s, which the first label stands for, is not added", in.Cmdline, in.Blacklist, x[0], x[1]), js)
+		}
+		// how often a label is added (once per label that stands for it and BUILD file of the package) is not part of
+		// the property; the correspondence with the model compares it (CSet keeps duplicates)
+		if have[x] != 0 && have[x] != want[x] {
+			c.Hist("cmdline_multiplicity", "differs from once per label and BUILD file")
+		}
+	}
+	for _, x := range keys(have) {
+		if want[x] == 0 {
+			c.Fail("label-added-that-no-command-line-label-stands-for", fmt.Sprintf("command line %q (blacklist %q): //%s:%s is added", in.Cmdline, in.Blacklist, x[0], x[1]), js)
+		}
+	}
+}
+
+func coqTargets(in *input) string {
+	items := make([]string, len(in.Cmdline))
+	for i, l := range in.Cmdline {
+		if l[1] == "..." {
+			items[i] = lib.App("TDots", path(l[0]), coqNode(in.Tree.at(comps(l[0]))))
+		} else {
+			items[i] = lib.App("TLabel", path(l[0]), str(l[1]))
+		}
+	}
+	return lib.List(items)
+}
+
+func coqPairs(xs [][2]string) string {
+	items := make([]string, len(xs))
+	for i, x := range xs {
+		items[i] = lib.Pair(path(x[0]), str(x[1]))
+	}
+	return lib.List(items)
+}
+
+func oneSet(c *lib.Ctx, in *input, model bool) {
+	in.Kind = "set"
+	if in.Blacklist == nil {
+		in.Blacklist = []string{}
+	}
+	if in.Experimental == nil {
+		in.Experimental = []string{}
+	}
+	ndots := 0
+	for _, l := range in.Cmdline {
+		if n := in.Tree.at(comps(l[0])); l[1] == "..." && (n == nil || n.Kind != "d") {
+			panic(fmt.Sprintf("generator: %q is not a directory of the tree", l[0]))
+		}
+		if l[1] == "..." {
+			ndots++
+		}
+	}
+	got := runSet(in)
+	js := map[string]any{"kind": "set", "build_file_names": in.BuildFileNames, "blacklist": in.Blacklist, "experimental": in.Experimental,
+		"cmdline": in.Cmdline, "tree": in.Tree, "added": got}
+	key := fmt.Sprintf("set|%q|%q|%q|%q|%s", in.BuildFileNames, in.Blacklist, in.Experimental, in.Cmdline, coqNode(in.Tree))
+	nontriv := ndots >= 2 && len(got) >= 2
+	if model {
+		c.Case(lib.App("CSet", strList(in.BuildFileNames), strList(in.Blacklist), strList(in.Experimental), coqTargets(in), coqPairs(got)), js, key, nontriv)
+	} else {
+		c.Eval(js, key, nontriv)
+	}
+	oracleSet(c, in, got, js)
+	c.HistN("cmdline_labels", len(in.Cmdline))
+	c.HistN("cmdline_labels_added", min(len(got), 12))
+	c.Hist("cmdline_shape", cmdlineShape(in))
+}
+
+// nameOnlyPrefix: a's path is a proper string prefix of b's without being a prefix by whole components
+func nameOnlyPrefix(a, b string) bool {
+	return a != "" && a != b && strings.HasPrefix(b, a) && !compsPrefix(comps(a), comps(b))
+}
+
+func cmdlineShape(in *input) string {
+	var dots []string
+	for _, l := range in.Cmdline {
+		if l[1] == "..." {
+			dots = append(dots, l[0])
+		}
+	}
+	shape := "unrelated roots"
+	for i := range dots {
+		for j := range dots {
+			switch {
+			case i < j && nameOnlyPrefix(dots[i], dots[j]):
+				return "earlier root is a name prefix of a later one"
+			case i > j && nameOnlyPrefix(dots[i], dots[j]):
+				shape = "later root is a name prefix of an earlier one"
+			case i != j && shape == "unrelated roots" && compsPrefix(comps(dots[i]), comps(dots[j])):
+				shape = "nested or repeated roots"
+			}
+		}
+	}
+	if len(dots) < 2 {
+		return "fewer than two ... labels"
+	}
+	return shape
+}
+
+// addPrefixSibling gives some directory of the tree a sibling whose name extends its name (out -> output, a -> a-2, ...)
+func addPrefixSibling(r *lib.Rng, tree *node) {
+	var parents []*node
+	var rec func(n *node)
+	rec = func(n *node) {
+		for _, k := range n.Kids {
+			if k.Kind == "d" {
+				parents = append(parents, n)
+				rec(k)
+			}
+		}
+	}
+	rec(tree)
+	if len(parents) == 0 {
+		return
+	}
+	p := lib.Pick(r, parents)
+	var ds []*node
+	for _, k := range p.Kids {
+		if k.Kind == "d" {
+			ds = append(ds, k)
+		}
+	}
+	base := lib.Pick(r, ds)
+	name := base.Name + lib.Pick(r, []string{"put", "x", "-2", ".d", "_test", "b"})
+	if p.kid(name) != nil {
+		return
+	}
+	sib := d(name, f("BUILD"))
+	if r.Bool() {
+		sib.Kids = append(sib.Kids, d(lib.Pick(r, []string{"lib", "a", "out", "x"}), f("BUILD")))
+	}
+	p.Kids = append(p.Kids, sib)
+}
+
+// genCmdlines: a tree and one or two command lines over it (a pair = the same labels in both orders)
+func genCmdlines(r *lib.Rng, maxDepth int) []*input {
+	base := genInput(r, r.Chance(1, 3), maxDepth)
+	if r.Chance(2, 3) {
+		addPrefixSibling(r, base.Tree)
+	}
+	var dirs []string
+	base.Tree.allDirs("", &dirs)
+	mk := func(cl [][2]string) *input {
+		in := *base
+		in.Root, in.Prefix, in.Cmdline = "", "", cl
+		return &in
+	}
+	extra := func(cl [][2]string) [][2]string {
+		for r.Chance(1, 3) && len(cl) < 5 {
+			l := [2]string{lib.Pick(r, dirs), lib.Pick(r, []string{"...", "...", "all", "t"})}
+			i := r.Range(0, len(cl))
+			cl = append(cl[:i:i], append([][2]string{l}, cl[i:]...)...)
+		}
+		return cl
+	}
+	var pairs [][2]string
+	for _, a := range dirs {
+		for _, b := range dirs {
+			if nameOnlyPrefix(a, b) {
+				pairs = append(pairs, [2]string{a, b})
+			}
+		}
+	}
+	if len(pairs) > 0 && r.Chance(3, 4) {
+		p := lib.Pick(r, pairs)
+		ab := extra([][2]string{{p[0], "..."}, {p[1], "..."}})
+		ba := make([][2]string, len(ab))
+		for i := range ab {
+			ba[len(ab)-1-i] = ab[i]
+		}
+		return []*input{mk(ab), mk(ba)}
+	}
+	n := r.Range(2, 4)
+	cl := [][2]string{}
+	for i := 0; i < n; i++ {
+		cl = append(cl, [2]string{lib.Pick(r, dirs), "..."})
+	}
+	return []*input{mk(extra(cl))}
+}
+
+func adversarialSets() []*input {
+	pk := func(name string, kids ...*node) *node { return d(name, append([]*node{f("BUILD")}, kids...)...) }
+	dots := func(ps ...string) [][2]string {
+		out := [][2]string{}
+		for _, p := range ps {
+			out = append(out, [2]string{p, "..."})
+		}
+		return out
+	}
+	t1 := func() *node {
+		return d("", pk("out", pk("a")), pk("output", pk("lib")), d("src", pk("a", pk("x")), pk("ab", pk("y")), pk("a.b")), pk(".git", pk("x")), pk("plz-out", pk("gen")))
+	}
+	none := []string{}
+	mk := func(bl []string, cl [][2]string) *input {
+		return &input{BuildFileNames: defaultNames, Blacklist: bl, Experimental: none, Tree: t1(), Cmdline: cl}
+	}
+	return []*input{
+		// name prefixes that are not component prefixes, both orders
+		mk(none, dots("out", "output")), mk(none, dots("output", "out")),
+		mk(none, dots("src/a", "src/ab")), mk(none, dots("src/ab", "src/a")),
+		mk(none, dots("src/a", "src/a.b", "src/ab", "out", "output")),
+		// nested and repeated labels: everything is added once per label
+		mk(none, dots("src", "src/a", "src/a/x")), mk(none, dots("src/a/x", "src/a", "src")), mk(none, dots("out", "out")),
+		// `//...` first, then directories it does not descend into but that can be asked for by name
+		mk(none, dots("", ".git/x", "plz-out/gen")), mk(none, dots(".git/x", "")),
+		// blacklisted by name / by path, asked for explicitly next to a name-prefix sibling
+		mk([]string{"out"}, dots("out", "output")), mk([]string{"src/a"}, dots("src/a", "src/ab", "src")),
+		// mixed with ordinary labels
+		mk(none, [][2]string{{"out", "..."}, {"output", "all"}, {"output", "..."}, {"out/a", "t"}}),
+	}
+}
+
+// ---------------------------------------------------------------------------------------------
+// completion of `//dir/`: query.containsPackage
+
+// refContains: declaratively (depth first, no queue): dir is not isExcluded and holds an entry named like a BUILD
+// file, or one of its real sub-directories does
+func refContains(in *input, cs []string) bool {
+	n := in.Tree.at(cs)
+	if n == nil || n.Kind != "d" {
+		return false
+	}
+	last := "."
+	if len(cs) > 0 {
+		last = cs[len(cs)-1]
+	}
+	if pathStr(cs) == "plz-out" || contains(in.Blacklist, last) {
+		return false
+	}
+	for _, k := range n.Kids {
+		if contains(in.BuildFileNames, k.Name) {
+			return true
+		}
+	}
+	for _, k := range n.Kids {
+		if k.Kind == "d" && refContains(in, append(append([]string{}, cs...), k.Name)) {
+			return true
+		}
+	}
+	return false
+}
+
+// completionExcludes: does some directory under cs (cs excluded) stop the completion search (isExcluded)?
+func completionExcludesBelow(in *input, n *node) bool {
+	for _, k := range n.Kids {
+		if k.Kind == "d" && (contains(in.Blacklist, k.Name) || completionExcludesBelow(in, k)) {
+			return true
+		}
+	}
+	return false
+}
+
+// containsAll runs the real containsPackage for each of the given directories of one tree
+func containsAll(c *lib.Ctx, in *input, dirs []string, modelDirs int) {
+	in.Kind = "contains"
+	if in.Blacklist == nil {
+		in.Blacklist = []string{}
+	}
+	if in.Experimental == nil {
+		in.Experimental = []string{}
+	}
+	found := make([]bool, len(dirs))
+	cfg := config(in)
+	inRepo(in, func() {
+		for i, dir := range dirs {
+			found[i] = query.VerifC22ContainsPackage(cfg, dir)
+		}
+	})
+	for i, dir := range dirs {
+		cs := comps(dir)
+		sub := in.Tree.at(cs)
+		js := map[string]any{"kind": "contains", "build_file_names": in.BuildFileNames, "blacklist": in.Blacklist, "experimental": in.Experimental,
+			"dir": dir, "tree": in.Tree, "found": found[i]}
+		key := fmt.Sprintf("contains|%q|%q|%s|%s", in.BuildFileNames, in.Blacklist, dir, coqNode(sub))
+		nontriv := completionExcludesBelow(in, sub) && sub.size() >= 4
+		if i < modelDirs {
+			c.Case(lib.App("CContains", strList(in.BuildFileNames), strList(in.Blacklist), strList(in.Experimental), path(dir), coqNode(sub), lib.Bool(found[i])), js, key, nontriv)
+		} else {
+			c.Eval(js, key, nontriv)
+		}
+		c.Oracle()
+		one := *in
+		one.Root, one.Prefix = dir, ""
+		exp := reference(&one)
+		want := refContains(in, cs)
+		switch {
+		case len(exp) > 0 && !found[i]:
+			c.Fail("completion-hides-directory-whose-expansion-lists-packages", fmt.Sprintf("containsPackage(%q) (blacklist %q) is false, but //%s/... lists %q", dir, in.Blacklist, dir, lib.SortedKeys(exp)), js)
+		case want && !found[i]:
+			c.Fail("completion-search-misses-reachable-build-file", fmt.Sprintf("containsPackage(%q) (blacklist %q) is false, but a BUILD file is reachable through directories that are not excluded", dir, in.Blacklist), js)
+		case !want && found[i]:
+			c.Fail("completion-search-finds-package-where-none-reachable", fmt.Sprintf("containsPackage(%q) (blacklist %q) is true, but no BUILD file is reachable through directories that are not excluded", dir, in.Blacklist), js)
+		}
+		c.Hist("contains_package", fmt.Sprintf("%v", found[i]))
+		switch {
+		case len(exp) > 0:
+			c.Hist("contains_vs_expansion", "expansion lists packages")
+		case found[i]:
+			c.Hist("contains_vs_expansion", "offered by completion, expansion empty (hidden / experimental / nested plz-out / BUILD-named directory ...)")
+		default:
+			c.Hist("contains_vs_expansion", "neither")
+		}
+	}
+}
+
+func genContains(r *lib.Rng, maxDepth int) (*input, []string) {
+	in := genInput(r, r.Chance(1, 3), maxDepth)
+	in.Root, in.Prefix = "", ""
+	if len(in.Blacklist) == 0 || r.Chance(1, 2) {
+		// a blacklisted name that really occurs in the tree
+		var names []string
+		var rec func(n *node)
+		rec = func(n *node) {
+			for _, k := range n.Kids {
+				if k.Kind == "d" {
+					names = append(names, k.Name)
+					rec(k)
+				}
+			}
+		}
+		rec(in.Tree)
+		if len(names) > 0 {
+			if x := lib.Pick(r, names); !contains(in.Blacklist, x) {
+				in.Blacklist = append(append([]string{}, in.Blacklist...), x)
+			}
+		}
+	}
+	var dirs []string
+	in.Tree.allDirs("", &dirs)
+	dirs[0] = "."
+	lib.Shuffle(r, dirs)
+	return in, dirs
+}
+
+func adversarialContains() (ins []*input, dirs [][]string) {
+	pk := func(name string, kids ...*node) *node { return d(name, append([]*node{f("BUILD")}, kids...)...) }
+	add := func(bl []string, t *node, ds ...string) {
+		ins = append(ins, &input{BuildFileNames: defaultNames, Blacklist: bl, Experimental: []string{}, Tree: t})
+		dirs = append(dirs, ds)
+	}
+	// a blacklisted directory dequeued before the package is found: next to it (sorted first), one level above it,
+	// or after it; the candidate's own BUILD file; nothing but the blacklisted directory
+	add([]string{"node_modules"}, d("", d("src", d("app", d("node_modules", pk("dep")), pk("ui")), d("deep", d("node_modules"), d("pkg", pk("sub"))),
+		d("svc", pk("api"), d("node_modules", pk("dep"))), pk("own", d("node_modules")), d("only", d("node_modules", pk("dep"))), d("node_modules", pk("dep")))),
+		"src/app", "src/deep", "src/svc", "src/own", "src/only", "src/node_modules", "src", ".")
+	// plz-out only as the whole path; hidden and experimental directories are searched by completion
+	add([]string{}, d("", d("plz-out", pk("gen")), d("a", d("plz-out", pk("gen"))), d("b", d(".hid", pk("x"))), d("c")), "plz-out", "a", "a/plz-out", "b", "c", ".")
+	// entries named like a BUILD file that are not files; blacklist entries that are paths
+	add([]string{"x/y", "y"}, d("", d("a", d("BUILD", f("x"))), d("b", l("BUILD")), d("x", d("y", pk("p")), d("z", d("y", pk("q")))), d("e", f("BUILD.bazel"))), "a", "b", "x", "x/z", "e", ".")
+	return
+}
+
+// ---------------------------------------------------------------------------------------------
 // generators
 
 var defaultNames = []string{"BUILD", "BUILD.plz"}
@@ -630,7 +1101,12 @@ func tarTree(path string) *node {
 func adversarial() []*input {
 	pk := func(name string, kids ...*node) *node { return d(name, append([]*node{f("BUILD")}, kids...)...) }
 	none := []string{}
-	out := []*input{
+	type in6 struct {
+		bfn, bl, exp []string
+		root, prefix string
+		tree         *node
+	}
+	six := []in6{
 		// the witness of the defect fixed by e0a6f77: `out` must not hide output/, third_party/x not third_party/xy
 		{defaultNames, []string{"out"}, none, ".", "", d("", pk("out", pk("a")), pk("output", pk("q")), pk("outp"), pk("ou"), pk("out.d"), pk("out-"))},
 		{defaultNames, []string{"third_party/x"}, none, ".", "", d("", d("third_party", pk("x", pk("y")), pk("xy"), pk("x.y")), d("third_partyish", pk("z")), d("a", d("third_party", pk("x"))))},
@@ -667,6 +1143,10 @@ func adversarial() []*input {
 		// a non-empty prefix argument (not used by `...` expansion; correspondence only)
 		{defaultNames, none, none, ".", "third_party/", d("", pk("third_party", pk("x")), pk("third"), pk("a"))},
 		{defaultNames, []string{"x"}, none, ".", "a/b", d("", pk("a", pk("b", pk("c"), pk("x")), pk("bc"), pk("c")), pk("ab"))},
+	}
+	out := []*input{}
+	for _, x := range six {
+		out = append(out, &input{BuildFileNames: x.bfn, Blacklist: x.bl, Experimental: x.exp, Root: x.root, Prefix: x.prefix, Tree: x.tree})
 	}
 	return out
 }
@@ -719,7 +1199,11 @@ func main() {
 			"experimental/experimentally, hidden names, files named like directories, symlinks to directories, several BUILD file names) written to a " +
 			"temporary directory; configurations = BUILD file name set x 0-3 blacklist entries (names and paths) x 0-2 experimental dirs; the directory asked " +
 			"for is the root or a random directory of the tree. Real plz.FindAllBuildFiles and (hook) findOriginalTask run inside the tree. " +
-			"distinct = distinct (configuration, directory, tree); non-trivial = >= 2 directories with a BUILD file under the directory and >= 1 excluded directory")
+			"distinct = distinct (configuration, directory, tree); non-trivial = >= 2 directories with a BUILD file under the directory and >= 1 excluded directory. " +
+			"Command lines: 2-5 labels over such a tree (`...` labels of random directories, mostly pairs whose paths share a name prefix without being nested - " +
+			"out/output, a/a-2 - each pair in both orders; nested and repeated roots; `//...`; ordinary labels in between), run through the real findOriginalTaskSet; " +
+			"non-trivial = >= 2 `...` labels and >= 2 labels added. Completion: the real query.containsPackage on every directory of trees whose blacklist names a " +
+			"directory that occurs in them; non-trivial = a blacklisted directory below the directory asked for")
 		gologging.SetLevel(gologging.CRITICAL, "plz")
 		var err error
 		// thousands of small trees are created and removed: use a memory file system when there is one
@@ -741,7 +1225,14 @@ func main() {
 		var rep input
 		defer func() { c.Model(header(), "C22.case", "C22.check") }()
 		if c.ReadReplay(&rep) {
-			one(c, &rep, true)
+			switch rep.Kind {
+			case "set":
+				oneSet(c, &rep, true)
+			case "contains":
+				containsAll(c, &rep, []string{rep.Dir}, 1)
+			default:
+				one(c, &rep, true)
+			}
 			return
 		}
 
@@ -773,6 +1264,40 @@ func main() {
 		for i := 0; i < n; i++ {
 			r := c.Rng.Fork()
 			one(c, genInput(r, r.Chance(2, 3), 4), false)
+		}
+
+		// 4. several labels on one command line, through the real findOriginalTaskSet: hand-made, then random command
+		//    lines biased towards `...` labels whose roots share a name prefix (each such pair in both orders)
+		for _, in := range adversarialSets() {
+			oneSet(c, in, true)
+		}
+		n = c.Scale(90, 1200)
+		for i := 0; i < n; i++ {
+			for _, in := range genCmdlines(c.Rng.Fork(), 3) {
+				oneSet(c, in, true)
+			}
+		}
+		n = c.Scale(350, 8000)
+		for i := 0; i < n; i++ {
+			for _, in := range genCmdlines(c.Rng.Fork(), 4) {
+				oneSet(c, in, false)
+			}
+		}
+
+		// 5. completion of `//dir/`: the real containsPackage on every directory of generated trees
+		ains, adirs := adversarialContains()
+		for i, in := range ains {
+			containsAll(c, in, adirs[i], len(adirs[i]))
+		}
+		n = c.Scale(50, 800)
+		for i := 0; i < n; i++ {
+			in, dirs := genContains(c.Rng.Fork(), 3)
+			containsAll(c, in, dirs, 3)
+		}
+		n = c.Scale(250, 6000)
+		for i := 0; i < n; i++ {
+			in, dirs := genContains(c.Rng.Fork(), 4)
+			containsAll(c, in, dirs, 0)
 		}
 	})
 }
